@@ -275,7 +275,7 @@ func runC14(c *Ctx) {
 	// values returned from the scan were tested set
 	for _, r := range returnsOf(um) {
 		rv := retVals(r)
-		if !isNilConst(rv[1]) || !inLoop(r) {
+		if !isNilConst(rv[1]) || !underLoop(r) {
 			continue
 		}
 		okT := false
